@@ -379,3 +379,36 @@ def search_C12(work, reason):
     r = pure_arm("C12", "quick", 1, work)
     hard = [v for v in r["violations"] if not v[1]]
     return hard[0] if hard else None
+
+
+def run_script(harness, path, work, tag):
+    """run an op script on both sides; returns (ops, impl groups, model groups)"""
+    ip, mp = os.path.join(work, tag + ".impl"), os.path.join(work, tag + ".model")
+    vlib.run_impl(harness, path, ip, timeout=300)
+    vlib.run_model(path, mp, timeout=300)
+    ops, _ = vlib.read_ops(path)
+    return ops, vlib.read_groups(ip), vlib.read_groups(mp)
+
+
+def special_C02(tier, seed, harness, work):
+    """known finding K1: confirm it still reproduces, report it as KNOWN-FINDING"""
+    known = []
+    viol = []
+    kf = json.load(open(os.path.join(VERIF, "known_findings.json")))["findings"]
+    k1 = [f for f in kf if f["id"] == "K1" and f["status"] == "known"]
+    path = os.path.join(VERIF, "corpus", "K1-generation-wrap.ops")
+    ops, gi, gm = run_script(harness, path, work, "k1")
+    idx = [i for i, (_, l) in enumerate(ops) if l.startswith("alive E1:0")][0]
+    others_equal = all(a == b for j, (a, b) in enumerate(zip(gi, gm)) if j < idx)
+    if gi[idx] == ["= ok 1"] and gm[idx] == ["= ok 0"] and others_equal:
+        if k1:
+            known.append("handle 1:0 is reported alive again after exactly 2^32 recycles of id 1 (uint32 generation wrap; replay corpus/K1-generation-wrap.ops)")
+        else:
+            rp = os.path.join(VERIF, "replays", "C02-K1.ops")
+            shutil.copy(path, rp)
+            viol.append((rp, ""))
+    elif not others_equal:
+        rp = os.path.join(VERIF, "replays", "C02-K1-script.txt")
+        open(rp, "w").write("the K1 scenario diverges before the wrap-around probe:\nimpl: %s\nmodel: %s\n" % (gi, gm))
+        viol.append((rp, ""))
+    return {"coverage": {"known_finding_scenarios": 1}, "violations": viol, "known": known}
